@@ -101,3 +101,11 @@ Theorem C06_program_sources_unchanged : forall pool prog,
     (forall i, In i srcs -> g_heap g' i = g_heap g i) /\ (forall i, In i (g_log g') -> ~ In i srcs).
 Proof. exact program_sources_unchanged. Qed.
 Print Assumptions C06_program_sources_unchanged.
+
+(* non-vacuity 3 (cells): rows are copied shallowly, so mutating a cell reached through a fresh copy is rejected, and the
+   semantics has a run in which that mutation rewrites a source object *)
+Example C06_cell_mutation_rejected_and_harmful :
+  safe [] ex_cell = false /\
+  exists g', run_query [0] ex_cell [w_any] env_empty ex_g0 g' /\ g_heap g' 0 <> g_heap ex_g0 0.
+Proof. exact cell_mutation_rejected_and_harmful. Qed.
+Print Assumptions C06_cell_mutation_rejected_and_harmful.
